@@ -193,6 +193,11 @@ def real_mutation(mj):
         return M.RenameAppLabel(mj['old'], mj['new'], legacy_app_label=mj.get('legacy'),
                                 model_names=mj.get('models'))
     if t == 'SQLMutation':
+        if mj.get('no_tx_sql'):
+            # statements that have to run outside any transaction, after the ordinary ones of the same evolution
+            from django_evolution.utils.sql import NoTransactionSQL
+            return M.SQLMutation(mj['tag'], [NoTransactionSQL(list(mj['no_tx_sql']))],
+                                 update_func=lambda simulation: None)
         if mj.get('can_simulate'):
             return M.SQLMutation(mj['tag'], mj.get('sql', []), update_func=lambda simulation: None)
         return M.SQLMutation(mj['tag'], mj.get('sql', []))
@@ -243,7 +248,7 @@ def abs_mutation_obj(mu):
 
 def model_mutation(mj):
     """strip harness-only keys; compute the model-side value of ChangeMeta"""
-    out = {k: v for k, v in mj.items() if k not in ('py_value', 'sql')}
+    out = {k: v for k, v in mj.items() if k not in ('py_value', 'sql', 'no_tx_sql')}
     if mj['t'] == 'ChangeMeta':
         prop, val = mj['prop'], mj['py_value']
         if prop in ('unique_together', 'index_together'):
